@@ -49,6 +49,7 @@ type SchemaDump struct {
 	Schemas []DumpSchema `json:"schemas"`
 	Names   []DumpNames  `json:"names"`
 	Groups  []DumpGroups `json:"groups"`
+	Mutated []string     `json:"mutated"` // constants that changed after a machine was created from them
 }
 
 const machinePkg = repoModule + "/pkg/machine"
@@ -132,7 +133,7 @@ func extractSchemas(opts *RunOpts) (*SchemaDump, []string, error) {
 	}
 	var notes []string
 	var b bytes.Buffer
-	b.WriteString("package main\n\nimport (\n\t\"encoding/json\"\n\t\"os\"\n\t\"reflect\"\n\tam \"" + machinePkg + "\"\n")
+	b.WriteString("package main\n\nimport (\n\t\"context\"\n\t\"encoding/json\"\n\t\"os\"\n\t\"reflect\"\n\tam \"" + machinePkg + "\"\n")
 	type item struct{ alias, pkg, name, kind string }
 	var items []item
 	sort.Slice(pkgs, func(i, j int) bool { return pkgs[i].PkgPath < pkgs[j].PkgPath })
@@ -227,7 +228,27 @@ func main() {
 			fmt.Fprintf(&b, "\tgrs = append(grs, groups(%q, %q, %s.%s))\n", it.pkg, it.name, it.alias, it.name)
 		}
 	}
-	b.WriteString("\tjson.NewEncoder(os.Stdout).Encode(map[string]any{\"schemas\": schemas, \"names\": names, \"groups\": grs})\n}\n")
+	// using a shipped schema must not change it: create a machine from every schema
+	// constant (this runs Schema.Parse on it) and dump everything again
+	b.WriteString("\tfirst, _ := json.Marshal(map[string]any{\"schemas\": schemas, \"groups\": grs})\n")
+	b.WriteString("\tuse := func(s am.Schema) {\n\t\tdefer func() { recover() }()\n\t\tctx, cancel := context.WithCancel(context.Background())\n\t\tdefer cancel()\n\t\tam.New(ctx, s, nil)\n\t}\n")
+	for _, it := range items {
+		if it.kind == "schema" {
+			fmt.Fprintf(&b, "\tuse(%s.%s)\n", it.alias, it.name)
+		}
+	}
+	b.WriteString("\tvar schemas2 []sch\n\tvar grs2 []gr\n")
+	for _, it := range items {
+		switch it.kind {
+		case "schema":
+			fmt.Fprintf(&b, "\tschemas2 = append(schemas2, schema(%q, %q, %s.%s))\n", it.pkg, it.name, it.alias, it.name)
+		case "groups":
+			fmt.Fprintf(&b, "\tgrs2 = append(grs2, groups(%q, %q, %s.%s))\n", it.pkg, it.name, it.alias, it.name)
+		}
+	}
+	b.WriteString("\tvar mutated []string\n\tfor i := range schemas {\n\t\ta, _ := json.Marshal(schemas[i])\n\t\tb2, _ := json.Marshal(schemas2[i])\n\t\tif string(a) != string(b2) {\n\t\t\tmutated = append(mutated, schemas[i].Pkg+\".\"+schemas[i].Name+\": \"+string(a)+\" became \"+string(b2))\n\t\t}\n\t}\n")
+	b.WriteString("\tfor i := range grs {\n\t\ta, _ := json.Marshal(grs[i])\n\t\tb2, _ := json.Marshal(grs2[i])\n\t\tif string(a) != string(b2) {\n\t\t\tmutated = append(mutated, grs[i].Pkg+\".\"+grs[i].Name+\": \"+string(a)+\" became \"+string(b2))\n\t\t}\n\t}\n\t_ = first\n")
+	b.WriteString("\tjson.NewEncoder(os.Stdout).Encode(map[string]any{\"schemas\": schemas, \"names\": names, \"groups\": grs, \"mutated\": mutated})\n}\n")
 
 	tmp, err := os.MkdirTemp("", "gocv-schemas-")
 	if err != nil {
@@ -264,6 +285,7 @@ func main() {
 			Pkg, Name string
 			Groups    map[string][]string
 		}
+		Mutated []string
 	}
 	if err := json.Unmarshal(out.Bytes(), &raw); err != nil {
 		return nil, notes, fmt.Errorf("schema dump output: %v", err)
@@ -278,6 +300,7 @@ func main() {
 	for _, g := range raw.Groups {
 		d.Groups = append(d.Groups, DumpGroups{g.Pkg, g.Name, g.Groups})
 	}
+	d.Mutated = raw.Mutated
 	return d, notes, nil
 }
 
